@@ -345,6 +345,25 @@ def run(ctx: Ctx):
                     ctx.violation("compute", "zero-thrown-nonempty", "N=0 run has rows", {"run": lab})
             except Exception as e:  # noqa
                 ctx.violation("compute", "zero-survivors-fails", f"a run in which no trajectory survives raises {type(e).__name__}: {str(e)[:120]}", {"run": lab})
+    # (e') very few survivors (0, 1, 2): one row per surviving trajectory with every stage's columns and the integral keywords
+    few = {0: 0, 1: 0, 2: 0}
+    for sd in range(40 if not ctx.thorough else 200):
+        if min(few[1], few[2]) >= (2 if not ctx.thorough else 6):
+            break
+        nthrow = 1 + sd % 3
+        cfgf = make_cfg("Diffuse", ("mono", "power")[sd % 2], "none", True, bool(sd % 4 < 2), 525.0, nthrow)
+        lab = f"Diffuse/thrown={nthrow}/seed={1000 + sd}"
+        try:
+            tf = run_compute(cfgf, 1000 + sd, "synchronous")
+        except Exception as e:  # noqa
+            ctx.violation("compute", "few-survivors-fails", f"a run with {nthrow} thrown trajectories raises {type(e).__name__}: {str(e)[:120]}", {"run": lab})
+            continue
+        k_ = len(tf) if len(tf.colnames) else 0
+        if k_ in few:
+            few[k_] += 1
+        ctx.count(f"few_survivors_{k_}")
+        ctx.case(("few", nthrow, 1000 + sd, k_), None)
+        check_structure(ctx, cfgf, tf, lab)
     # a target that is never occulted during a short observation: zero survivors with N > 0
     cfgz = make_cfg("Target", "mono", "none", True, True, 525.0, 50)
     cfgz.simulation.target.source_obst = 60.0
